@@ -38,3 +38,7 @@ TABLE["C20"] = dict(engine="component", technique="property-based testing: Hypot
 TABLE["C19"] = dict(engine="component", technique="property-based testing + exhaustive enumeration of the byte->word map: Hypothesis-generated code lengths, malformed codes/nameplates, typed prefixes and server nameplate lists against real wormholes on the real server; entropy decided by enumerating os.urandom (256 values x 8 positions, 65536 pairs)",
     text="Four generated parts (allocate structure, validation incl. 'nothing sent', completion through the real Input helper and CodeInputter, only-one-code) plus an exhaustive part run in both tiers. The trailing-newline nameplate this found was repaired in repo commit a53d28e (fix:).",
     note=COMP_NOTE + " os.urandom itself is trusted.")
+
+TABLE["C12"] = dict(engine="component", technique="property-based testing: Hypothesis-generated record sequences (all types, 32-bit boundary ids, payload sizes around the Noise packet limits), tape-chosen chunkings and hostile byte-stream variants against a real DilatedConnectionProtocol pair with real Noise; round-trip oracle and nothing-surfaced-after-hostile-element oracle",
+    text="Both ends are the real protocol objects built by Connector.build_protocol (framer, record layer, Noise), joined by byte pipes; the manager is a recording stub, so 'reaching the manager' is observed directly. Hostile variants are produced by a party that does not hold the dilation key.",
+    note=COMP_NOTE + " The Noise implementation in use (noiseprotocol if importable, else the /verif shim self-tested by setup) is trusted as an AEAD.")
